@@ -27,6 +27,8 @@ type MethodResult struct {
 	Args     int    `json:"args"`
 	Result   string `json:"result_kind,omitempty"`
 	Pass     int    `json:"pass,omitempty"` // 1: the second call of the method on the same client
+	// AfterRefused: the call followed, in the same goroutine, a call that the library refused to serialise
+	AfterRefused bool `json:"after_refused,omitempty"`
 }
 
 // MethodsSpec: call every generated client method once with schema-generated arguments.
@@ -355,6 +357,7 @@ func (e *Env) runMethods() error {
 				pan any
 			}
 			ch := make(chan outcome, 1)
+			refusedMsg := ""
 			go func() {
 				var o outcome
 				defer func() {
@@ -363,6 +366,11 @@ func (e *Env) runMethods() error {
 					}
 					ch <- o
 				}()
+				if pass == 1 && n%6 == 0 {
+					// the application's previous call, from the same goroutine, was one the library has to refuse before
+					// anything is sent: a mandatory object left nil, or (now and then) a string of 2^24 bytes
+					refusedMsg = refusedCall(client, n%96 == 0)
+				}
 				o.out = m.Call(args)
 			}()
 			var o outcome
@@ -381,7 +389,12 @@ func (e *Env) runMethods() error {
 			mu.Lock()
 			got := gotBody
 			mu.Unlock()
+			if refusedMsg != "" {
+				mr.AfterRefused = true
+			}
 			switch {
+			case refusedMsg != "" && refusedMsg != "refused":
+				mr.Msg = refusedMsg
 			case got == nil && pass > 0:
 				mr.Msg = "the second call of the method on this client returned without sending a request"
 			case got == nil:
@@ -548,4 +561,24 @@ func describeDiff(got, want []byte) string {
 	}
 	return fmt.Sprintf("the request differs from the schema serialisation of the arguments in their schema positions at byte %d (got %d bytes …%x, want %d bytes …%x)",
 		d, len(got), got[d:min(d+8, len(got))], len(want), want[d:min(d+8, len(want))])
+}
+
+// refusedCall makes a request the library cannot serialise and therefore must refuse with an error, sending nothing.
+// Returns "refused", or a description of what happened instead.
+func refusedCall(client *telegram.Client, long bool) (msg string) {
+	defer func() {
+		if r := recover(); r != nil {
+			msg = fmt.Sprintf("a request that cannot be serialised made the call panic: %v", r)
+		}
+	}()
+	var err error
+	if long {
+		_, err = client.MakeRequest(&telegram.AccountCheckUsernameParams{Username: strings.Repeat("a", 1<<24)})
+	} else {
+		_, err = client.MakeRequest(&telegram.UsersGetFullUserParams{ID: nil})
+	}
+	if err == nil {
+		return "a request that cannot be serialised (nil mandatory object / 2^24-byte string) was not refused"
+	}
+	return "refused"
 }
